@@ -193,6 +193,12 @@ namespace cnl {
 
         // Calculate the final result by shifting the fraction part around.
         // Remember to add the 1 which is left out to get 1 bit more resolution
+        if constexpr (Exponent > 0 && numbers::signedness_v<Rep>) {
+            // every negative x gives a result below the resolution, and floor(x) need not fit Rep
+            if (_impl::to_rep(x) < Rep{}) {
+                return _impl::from_rep<out_type>(Rep{1});
+            }
+        }
         return _impl::from_rep<out_type>(_impl::fp::exp2<im>(x, static_cast<Rep>(floor(x))));
     }
 
